@@ -61,6 +61,16 @@ pub fn child_main(args: &[String]) -> i32 {
     let from: usize = args.get(3).and_then(|s| s.parse().ok()).unwrap_or(0);
     let until: usize = args.get(4).and_then(|s| s.parse().ok()).unwrap_or(usize::MAX);
     let snap_out = args.get(5).map(|s| s == "snap").unwrap_or(false);
+    if args.get(6).map(|s| s == "trace").unwrap_or(false) {
+        // ask to be traced by the parent and wait for it (done here rather than in the parent's pre_exec, which
+        // would make the parent fork() its whole address space instead of using the fast spawn path)
+        unsafe {
+            if libc::ptrace(libc::PTRACE_TRACEME, 0, 0, 0) < 0 {
+                return 7;
+            }
+            let _ = libc::raise(libc::SIGSTOP);
+        }
+    }
     let counter = Arc::new(AtomicU64::new(0));
     let cur_step = Arc::new(AtomicU64::new(u64::MAX)); // u64::MAX = opening
     let log: Arc<Mutex<Vec<(u64, &'static str)>>> = Arc::new(Mutex::new(Vec::new()));
@@ -187,6 +197,11 @@ fn run_child(script_path: &Path, k: u64, dir: &Path, from: usize, until: usize, 
 const MARK_BASE: u64 = 0x5056_0000;
 fn marker_syscall(code: u64) {
     unsafe {
+        if code == 1 {
+            // SIGURG is ignored by default, but a tracer is told about it: until then the tracer lets the child run
+            // without stopping at its system calls (loader, reading the script)
+            let _ = libc::raise(libc::SIGURG);
+        }
         let _ = libc::syscall(libc::SYS_getpriority, MARK_BASE | code, 0u64);
     }
 }
@@ -214,7 +229,6 @@ pub enum TraceMode {
 /// call by an invalid one at its entry stop and overwrites the return value at its exit stop.
 #[cfg(all(target_os = "linux", target_arch = "x86_64"))]
 pub fn run_child_traced(script_path: &Path, dir: &Path, from: usize, until: usize, mode: TraceMode, snap: bool) -> Result<Traced, String> {
-    use std::os::unix::process::CommandExt;
     const RAX: usize = 10 * 8;
     const RDI: usize = 14 * 8;
     const ORIG_RAX: usize = 15 * 8;
@@ -228,16 +242,9 @@ pub fn run_child_traced(script_path: &Path, dir: &Path, from: usize, until: usiz
         .arg(from.to_string())
         .arg(until.to_string())
         .arg(if snap { "snap" } else { "-" })
+        .arg("trace")
         .stdout(std::process::Stdio::null())
         .stderr(std::process::Stdio::null());
-    unsafe {
-        let _ = cmd.pre_exec(|| {
-            if libc::ptrace(libc::PTRACE_TRACEME, 0, 0, 0) < 0 {
-                return Err(std::io::Error::last_os_error());
-            }
-            Ok(())
-        });
-    }
     let child = cmd.spawn().map_err(|e| format!("spawn: {e}"))?;
     let pid = child.id() as libc::pid_t;
     let mut status: libc::c_int = 0;
@@ -262,7 +269,8 @@ pub fn run_child_traced(script_path: &Path, dir: &Path, from: usize, until: usiz
     };
     wait(&mut status)?;
     if !libc::WIFSTOPPED(status) {
-        return Err(format!("traced child did not stop at exec (status {status:#x})"));
+        // exit code 7: PTRACE_TRACEME was refused
+        return Err(format!("traced child did not stop after asking to be traced (status {status:#x})"));
     }
     let opts = libc::PTRACE_O_TRACESYSGOOD | libc::PTRACE_O_EXITKILL;
     if unsafe { libc::ptrace(libc::PTRACE_SETOPTIONS, pid, 0, opts) } < 0 {
@@ -274,8 +282,11 @@ pub fn run_child_traced(script_path: &Path, dir: &Path, from: usize, until: usiz
     let mut syscalls: Vec<(i64, i64)> = Vec::new();
     let mut deliver: libc::c_int = 0;
     let mut pending_errno: Option<i32> = None;
+    // before the child announces the window (SIGURG) and after the window it runs without system-call stops
+    let mut stepping = false;
     loop {
-        if unsafe { libc::ptrace(libc::PTRACE_SYSCALL, pid, 0, deliver as libc::c_long) } < 0 {
+        let req = if stepping { libc::PTRACE_SYSCALL } else { libc::PTRACE_CONT };
+        if unsafe { libc::ptrace(req, pid, 0, deliver as libc::c_long) } < 0 {
             let e = std::io::Error::last_os_error();
             return give_up(&mut status, format!("PTRACE_SYSCALL: {e}"));
         }
@@ -312,7 +323,10 @@ pub fn run_child_traced(script_path: &Path, dir: &Path, from: usize, until: usiz
                     match rdi & 0xffff {
                         1 => in_window = true,
                         2 => step += 1,
-                        _ => in_window = false,
+                        _ => {
+                            in_window = false;
+                            stepping = false;
+                        }
                     }
                     continue;
                 }
@@ -344,6 +358,8 @@ pub fn run_child_traced(script_path: &Path, dir: &Path, from: usize, until: usiz
             }
         } else if sig == libc::SIGTRAP {
             // exec / event stops: not forwarded
+        } else if sig == libc::SIGURG && !stepping && !in_window {
+            stepping = true;
         } else {
             deliver = sig;
         }
@@ -416,7 +432,7 @@ impl Prop for C13 {
         "fault_enumeration"
     }
     fn rule(&self) -> String {
-        "Fault model: process death by SIGKILL (page cache survives), at every named point compiled in with the 'verif' feature along store creation/opening (directory created, lmdb directory created, event map opened / sized / mapped, index opened) and along store_event / remove_event / vanish (transaction open, after the checks, after pre-removal, after alignment padding, mid-copy of the event bytes, copied but end marker not yet moved, appended, file grown, map remapped, indexed, per deletion tag, before commit, committed). Cases: a history of 1..8 (thorough 1..16) operations (stores incl. replacing, deleting and file-growing ones, removes, vanishes), optionally with a prefix already applied; a dry run in a child process counts the M points passed; then EVERY k in 1..=M is executed in a fresh child on a fresh copy of the starting directory, the child killing itself with SIGKILL at its k-th point (the thorough tier adds kills at random instants sent by the parent). For every second history the child is additionally run under ptrace and killed at the entry of EVERY system call it makes between starting to open the store and the end of the history (mkdir, openat, ftruncate, pwrite64, writev, mremap, msync, fcntl, ...: 50-110 per history), i.e. at every instant at which the files can differ, independently of where the named points were placed. Oracle per kill: Store::new on the directory succeeds; the full snapshot (see C12) equals the reference snapshot before or after the interrupted operation (vanish: retrievable set between the two, everything else equal to the state before); every retrievable event is byte-identical; then the remaining operations are applied and every result class and the final snapshot equal the uninterrupted reference run. evaluations = kills executed; non-trivial = kill strictly inside an operation that changes state (not at its first or last point); distinct by (history fingerprint, k).".into()
+        "Fault model: process death by SIGKILL (page cache survives), at every named point compiled in with the 'verif' feature along store creation/opening (directory created, lmdb directory created, event map opened / sized / mapped, index opened) and along store_event / remove_event / vanish (transaction open, after the checks, after pre-removal, after alignment padding, mid-copy of the event bytes, copied but end marker not yet moved, appended, file grown, map remapped, indexed, per deletion tag, before commit, committed). Cases: a history of 1..8 (thorough 1..16) operations (stores incl. replacing, deleting and file-growing ones, removes, vanishes), optionally with a prefix already applied; a dry run in a child process counts the M points passed; then EVERY k in 1..=M is executed in a fresh child on a fresh copy of the starting directory, the child killing itself with SIGKILL at its k-th point (the thorough tier adds kills at random instants sent by the parent). For every third history the child is additionally run under ptrace and killed at the entry of EVERY system call it makes between starting to open the store and the end of the history (mkdir, openat, ftruncate, pwrite64, writev, mremap, msync, fcntl, ...: 50-110 per history), i.e. at every instant at which the files can differ, independently of where the named points were placed. Oracle per kill: Store::new on the directory succeeds; the full snapshot (see C12) equals the reference snapshot before or after the interrupted operation (vanish: retrievable set between the two, everything else equal to the state before); every retrievable event is byte-identical; then the remaining operations are applied and every result class and the final snapshot equal the uninterrupted reference run. evaluations = kills executed; non-trivial = kill strictly inside an operation that changes state (not at its first or last point); distinct by (history fingerprint, k).".into()
     }
     fn assumptions(&self) -> Vec<String> {
         vec![
@@ -467,7 +483,7 @@ impl Prop for C13 {
             prop::collection::vec(op_strategy(w, cfg), 1..=tier.pick(8, 16)),
             prop_oneof![2 => Just(0u8), 1 => 1u8..6],
             prop::collection::vec(0u32..3000, n_random..=n_random),
-            prop_oneof![1 => Just(0u16), 1 => Just(tier.pick(400u16, 2000u16))],
+            prop_oneof![2 => Just(0u16), 1 => Just(tier.pick(400u16, 2000u16))],
         )
             .prop_map(|(ops, prefix, random_kills, sys_kills)| Case { ops, prefix, random_kills, sys_kills })
             .boxed()
@@ -912,6 +928,12 @@ pub fn inject_faults(ops: &[Op], max_faults: usize, out: &mut Outcome) {
         }
     };
     let script_path = write_script(area.path(), &script);
+    // every child parses the script and serialises a snapshot: histories with events of hundreds of KB are left to
+    // the in-process part of the check
+    if std::fs::metadata(&script_path).map(|m| m.len()).unwrap_or(0) > 300_000 {
+        out.label("fault-injection-skipped:large-script");
+        return;
+    }
     let dry = area.path().join("dry");
     let calls = match run_child_traced(&script_path, &dry, 0, usize::MAX, TraceMode::Dry, false) {
         Ok(t) if t.exit == Some(0) => t.syscalls,
